@@ -515,6 +515,25 @@ def run(tier, seed):
                                  ['Safety', 'Limit', 'AcceptedMeansWaitBegin'], 'c06', params, 'random real=%s creds=%s' % (real, creds),
                                  nproc=6)
     chk.sample({'recorded': [a for a, s in batch[0]][:6]})
+    # the 16 KiB boundary: a line of exactly 16384 bytes is not "longer than 16 KiB" - it is an ordinary line, wherever
+    # the reads cut it (between its CR and its LF too); one byte more is too long.  The model's Other / TooLong
+    for nbytes, want_closed in ((16384, False), (16385, True)):
+        line = b'FOO ' + b'x' * (nbytes - 4)
+        for cut in (None, nbytes // 2, nbytes, nbytes + 1):          # nbytes + 1: between CR and LF
+            drv = AuthServerDriver(False, False)
+            try:
+                drv.apply('FirstByte', (True,))
+                drv.feed(line + b'\r\n', [cut] if cut else None)
+                st = drv.project()
+            finally:
+                drv.close()
+            chk.traces += 1
+            ok = (st.get('st') == 'Closed') if want_closed else (st.get('st') == 'WaitAuth' and tuple(st.get('resp', ())) == ('ERROR',))
+            if not ok:
+                chk.violation('a line of %d bytes%s: %s, state %s' % (
+                    nbytes, '' if cut is None else ' cut after byte %d' % cut,
+                    'answered %r' % (tuple(st.get('resp', ())),), st.get('st')),
+                    dict(kind='spec->code line length boundary', module='c06', nbytes=nbytes, cut=cut, got=repr(st)))
     # several connections of one user sharing the keyring: cookie ids, lookups, deletion, expiry
     from . import cookiejar
     cookiejar.stage(chk, rng, thorough)
